@@ -2,6 +2,7 @@ package main
 
 import (
 	"fmt"
+	"math"
 	"math/big"
 	"reflect"
 	"sort"
@@ -1254,6 +1255,47 @@ func runC09(c *hc.Ctx) error {
 			c.Violate(hc.Violation{What: "a polygon with a vertex far outside the grid was not rejected with OutsideGrid", Input: in, Expected: "panic OutsideGrid", Observed: r.Panic + " " + r.PanicMsg})
 		case cfg.IgnoreOutsideGrid && (r.Panic != "" || len(r.Raw) != 0):
 			c.Violate(hc.Violation{What: "with ignore-outside-grid a polygon with a vertex far outside the grid did not return an empty result", Input: in, Expected: "empty map", Observed: r.Panic + " " + r.PanicMsg})
+		}
+	}
+	// beyond what an int64 of 1e-10 units can hold (|ordinate| >= 9.22e8): 1e9, 1e15, 1e300, +-Inf on each side.  The
+	// conversion of such a float is platform specific in Go; the property only asks that the polygon is REJECTED like any
+	// other polygon with a vertex outside: OutsideGrid by default, the empty result with ignore-outside-grid.
+	for i := 0; i < c.N(48, 600); i++ {
+		var g *Grid
+		var id int
+		if i%2 == 0 {
+			id = 12 + c.Rng.Intn(3)
+			gg, err := embeddedGrid("NetherlandsRDNewQuad", id)
+			if err != nil {
+				return err
+			}
+			g = gg
+		} else {
+			g = pickGrid(c, grids)
+			id = g.DeepestID
+		}
+		size := int64(1) << g.Deep
+		bx := float64(g.Ext[0]+(size/2)*g.Res) / 1e10
+		by := float64(g.Ext[1]+(size/2)*g.Res) / 1e10
+		px := float64(g.Res) / 1e10
+		fp := geom.Polygon{{{bx, by}, {bx + 40*px, by}, {bx + 20*px, by + 30*px}}}
+		huge := []float64{1e9, 1e15, 1e300, math.Inf(1)}[c.Rng.Intn(4)]
+		if c.Rng.Intn(2) == 0 {
+			huge = -huge
+		}
+		fp[0][c.Rng.Intn(3)][c.Rng.Intn(2)] = huge
+		cfg := randCfg(c.Rng)
+		cfg.IgnoreOutsideGrid = i%4 < 2
+		r := runSnapFloat(g, fp, []int{id}, cfg, watchdog)
+		c.Sum.Evaluations++
+		c.Count("beyond the int64 range of 1e-10 units (1e9 .. Inf)")
+		c.Nontrivial(fmt.Sprint(fp, id, cfg))
+		in := map[string]any{"grid": g.Name, "ids": []int{id}, "config": cfgJSON(cfg), "polygon": fmt.Sprint(fp)}
+		switch {
+		case !cfg.IgnoreOutsideGrid && r.Panic != "OutsideGrid":
+			c.Violate(hc.Violation{What: "a polygon with a vertex beyond the int64 range was not rejected with OutsideGrid", Input: in, Expected: "panic OutsideGrid", Observed: r.Panic + " " + r.PanicMsg})
+		case cfg.IgnoreOutsideGrid && (r.Panic != "" || len(r.Raw) != 0):
+			c.Violate(hc.Violation{What: "with ignore-outside-grid a polygon with a vertex beyond the int64 range did not return an empty result", Input: in, Expected: "empty map", Observed: r.Panic + " " + r.PanicMsg})
 		}
 	}
 	return nil
